@@ -1367,18 +1367,30 @@ pub fn derived_objects(cx: &mut Ctx) -> Vec<Val> {
         let bits = random_bits(&mut cx.rng, k);
         let which = cx.rng.pick(&vars).clone();
         let val = cx.rng.coin();
-        let choice = cx.rng.below(3);
+        let choice = cx.rng.below(6);
         for kind in [1usize, 2] {
             let x = fn_as(kind, &vars, &bits);
             let r: BTreeMap<String, bool> = [(which.clone(), val)].into_iter().collect();
             let vs: BTreeSet<String> = [which.clone()].into_iter().collect();
+            // substitutions after which every key is still an input: a swap and a rotation of literals
+            let literal = |n: &String| fn_as(kind, &[n.clone()], &[false, true]);
+            let swap: Vec<(String, Val)> = vec![(vars[0].clone(), literal(&vars[1])), (vars[1].clone(), literal(&vars[0]))];
+            let rot: Vec<(String, Val)> = (0..3).map(|i| (vars[i].clone(), literal(&vars[(i + 1) % 3]))).collect();
+            let as_t = |m: &Vec<(String, Val)>| -> BTreeMap<String, TruthTable<String>> { m.iter().filter_map(|(k, v)| match v { Val::T(t) => Some((k.clone(), t.clone())), _ => None }).collect() };
+            let as_b = |m: &Vec<(String, Val)>| -> BTreeMap<String, Bdd<String>> { m.iter().filter_map(|(k, v)| match v { Val::B(b) => Some((k.clone(), b.clone())), _ => None }).collect() };
             let derived = std::panic::catch_unwind(std::panic::AssertUnwindSafe(|| match (&x, choice) {
                 (Val::T(t), 0) => Val::T(t.restrict(&r)),
                 (Val::T(t), 1) => Val::T(t.existential_quantification(vs.clone())),
-                (Val::T(t), _) => Val::T(t.derivative(vs.clone())),
+                (Val::T(t), 2) => Val::T(t.derivative(vs.clone())),
+                (Val::T(t), 3) => Val::T(t.substitute(&as_t(&swap))),
+                (Val::T(t), 4) => Val::T(t.substitute(&as_t(&rot))),
+                (Val::T(t), _) => Val::T(!t),
                 (Val::B(b), 0) => Val::B(b.restrict(&r)),
                 (Val::B(b), 1) => Val::B(b.existential_quantification(vs.clone())),
-                (Val::B(b), _) => Val::B(b.derivative(vs.clone())),
+                (Val::B(b), 2) => Val::B(b.derivative(vs.clone())),
+                (Val::B(b), 3) => Val::B(b.substitute(&as_b(&swap))),
+                (Val::B(b), 4) => Val::B(b.substitute(&as_b(&rot))),
+                (Val::B(b), _) => Val::B(!b),
                 (v, _) => v.clone(),
             }));
             if let Ok(d) = derived {
